@@ -402,7 +402,12 @@ def batches(tier, seed):
     nt = len(rt.ctc_family(AFM_OPS, ['F0', 'F1', 'F2'] if full else ['F0', 'F1'], full))
     st = nt // 12 + 1
     b += [('batch_trees', [lo, lo + st, full]) for lo in range(0, nt, st)]
+    b.append(('batch_dups', []))
     return b
+
+
+def _noop():
+    pass
 
 
 def info(tier):
@@ -416,3 +421,16 @@ def info(tier):
                      'bounds': {'shapes': 'N<=%d' % (4 if tier == 'quick' else 5), 'name_len': 3 if tier == 'quick' else 4, 'range_ints': '0..99'},
                      'stubs': ['AFM lexer (contract), afmparser.get_tree / FileStream (real in native batches)']},
     }
+
+
+def replay_dups(k):
+    """near-duplicate constraints (repeated literally / differing by letter case of a name) through the real files."""
+    m = rt.dup_models()[k]
+    try:
+        return ['%s | constraints %r' % (b[:400], rt.DUP_CTC_SETS[k]) for b in afmio.file_roundtrip(m)]
+    except Exception as exc:
+        return ['round trip raises %s: %s (constraints %r)' % (type(exc).__name__, exc, rt.DUP_CTC_SETS[k])]
+
+
+def batch_dups():
+    return rt.dup_batch(__name__, 'afm-duplicate-constraints')
